@@ -234,3 +234,70 @@ Lemma near_one_witness :
   | _ => False
   end.
 Proof. vm_compute. repeat split; reflexivity. Qed.
+
+(* ---------- the same witnesses, decoded again ---------- *)
+
+(* for every formatting satisfying [fmt_ok], decoding the rendered section is the run-based
+   specification on the parsed records (no rendering needed to compute it) *)
+Definition respec (g : tp_general) (c : ControlPoints) : outcome ControlPoints :=
+  cp_run cp_empty (flat_map (run_ops (tpg_mode g)) (runs (map (wrec_parsed g) (enc_records c)))).
+
+Lemma legacy_spec_respec fmt_f64 fmt_f32 fmt_int :
+  fmt_ok fmt_f64 fmt_f32 fmt_int -> no_leading_zero fmt_int ->
+  forall g c, forallb wrec_ok (enc_records c) = true ->
+  legacy_spec g (map (render fmt_f64 fmt_f32 fmt_int) (map wrec_line (enc_records c))) = respec g c.
+Proof.
+  intros Hfmt Hlead g c Hok. rewrite map_map. unfold legacy_spec, spec_ops, respec.
+  rewrite (proj1 (accepted_records _ _ _ Hfmt Hlead g (enc_records c) Hok)). reflexivity.
+Qed.
+
+Definition dp_dump (c : ControlPoints) : list (list Z) :=
+  map (fun p => [D.bits (dp_time p); D.bits (dp_sv p)]) (cp_difficulty c).
+
+(* velocity 0x3FEFFFFFFFFFFFFF at 100 is read back as 1.0 = 0x3FF0000000000000 *)
+Lemma near_one_redecoded :
+  match decode_beatmap stub_dist (lines_of_text near_one_text) with
+  | Done m =>
+      match enc_control_points stub_dist stub_events m with
+      | Done c =>
+          match respec g_osu c with
+          | Done c' => dp_dump c = [[D.bits (D.of_Z 0); D.bits (D.of_Z 2)]; [D.bits (D.of_Z 100); 4607182418800017407]] /\
+                       dp_dump c' = [[D.bits (D.of_Z 0); D.bits (D.of_Z 2)]; [D.bits (D.of_Z 100); 4607182418800017408]]
+          | _ => False
+          end
+      | _ => False
+      end
+  | _ => False
+  end.
+Proof. vm_compute. split; reflexivity. Qed.
+
+(* a hit object (volume 50) at 1e-17 ms: within f64::EPSILON of the control-point time 0 but
+   with another total_cmp key.  collect_samples adds a sample point there, the encoder writes
+   a third line "1e-17,-50,...", the decoder puts all three lines into ONE pending group and
+   the last inherited line wins: the difficulty point moves from 0 to 1e-17, so the slider
+   velocity AT 0 is 2.0 before and 1.0 after (relative of D8; [times_separated] fails) *)
+Definition near_time_text : str :=
+  join_lines ["osu file format v14"; "[TimingPoints]"; "0,500,4,1,0,100,1,0"; "0,-50,4,1,0,100,0,0";
+              "[HitObjects]"; "256,192,0.00000000000000001,1,0,0:0:0:50:"]%string.
+
+Lemma near_time_witness :
+  match decode_beatmap stub_dist (lines_of_text near_time_text) with
+  | Done m =>
+      match enc_control_points stub_dist stub_events m with
+      | Done c =>
+          match respec g_osu c with
+          | Done c' =>
+              times_separated c = false /\
+              values_separated c = true /\ svs_round_trip c = true /\ forallb wrec_ok (enc_records c) = true /\
+              length (enc_records c) = 3%nat /\
+              dp_dump c = [[D.bits (D.of_Z 0); D.bits (D.of_Z 2)]] /\
+              dp_dump c' = [[D.bits (D.of_decimal false 1 (-17)); D.bits (D.of_Z 2)]] /\
+              D.bits (sv_lookup c D.zero) = D.bits (D.of_Z 2) /\
+              D.bits (sv_lookup c' D.zero) = D.bits (D.of_Z 1)
+          | _ => False
+          end
+      | _ => False
+      end
+  | _ => False
+  end.
+Proof. vm_compute. repeat split; reflexivity. Qed.
